@@ -88,6 +88,9 @@ fn family_budget(prop: &str, tier: &str, scale: f64) -> family::Budget {
         "C17" => (200_000, 5_000_000),
         _ => (100_000, 1_000_000),
     };
+    if tier == "miri" {
+        return family::Budget { g1_len: 2, g1_alphas: 1, g1_sampled: 0, random: sc(q_rand), long: 0, long_size: 0 };
+    }
     if thorough {
         family::Budget {
             g1_len: 5,
